@@ -417,6 +417,15 @@ func (e *MetaExecutor) CreateIterator(nodeID uint64, shardIDs []uint64, ctx cont
 		return nil, err
 	}
 
+	if resp.Type == influxql.Unknown {
+		// The remote node produced no iterator (it has none of the shards or they do
+		// not hold the measurement) and streams nothing. An iterator of a made-up type
+		// must not take part in the merge: it would decide the merge's type and the
+		// iterators that do carry data would be dropped.
+		conn.Close()
+		return nil, nil
+	}
+
 	return query.NewReaderIterator(ctx, conn, resp.Type, resp.Stats), nil
 }
 
